@@ -51,6 +51,14 @@ def run(pid, tier, seed, t0, emits, level_rule):
             samples += summ["samples"][:2]
             nontriv += nontrivial_relate(res["cases_path"]) + summ["extra"].get("coordpos_cases", 0)
             os.remove(res["cases_path"])
+    # pinned cases of known findings (exact inputs; see findings/known_findings.jsonl)
+    pinned = os.path.join(vf.VERIF, "findings", "pinned_cases.ndjson")
+    if pid == "C01" and os.path.exists(pinned):
+        outp = os.path.join(vf.WORK, "C01_pinned_results.ndjson")
+        vf.run_harness(["replay", pinned, outp, "--seed", seed, "--props", pid])
+        mm, summ, _ = vf.read_results(outp)
+        mism_all += mm
+        vf.merge_counts(passc, summ["pass"]); vf.merge_counts(failc, summ["fail"])
     cov = {
         "states": sum(r["distinct"] for r in runs),
         "transitions": sum(r["generated"] for r in runs),
